@@ -34,6 +34,7 @@ type c11Scenario struct {
 	PointTimes bool       `json:"use_point_times"`
 	Stream     bool       `json:"stream_form"`
 	PeriodS    int        `json:"period_s"`
+	WinS       int        `json:"window_period_s"` // the window period: 10 (tumbling) or 3 (gaps, empty batches occur)
 	Groups     []c11Group `json:"groups"`
 	Script     string     `json:"script"`
 	Config     string     `json:"config"`
@@ -43,7 +44,7 @@ var c11Fns = []string{"count", "sum", "mean", "median", "mode", "min", "max", "f
 
 func c11Gen(c *Ctx) *c11Scenario {
 	g := c.G
-	sc := &c11Scenario{Fn: c11Fns[g.Intn(len(c11Fns))], PeriodS: 10}
+	sc := &c11Scenario{Fn: c11Fns[g.Intn(len(c11Fns))], PeriodS: 10, WinS: []int{10, 10, 3}[g.Intn(3)]}
 	switch sc.Fn {
 	case "percentile":
 		sc.Arg = []int{50, 0, 1, 25, 75, 99, 100}[g.Intn(7)]
@@ -89,7 +90,7 @@ func c11Gen(c *Ctx) *c11Scenario {
 	var sb strings.Builder
 	sb.WriteString("stream\n    |from().measurement('m').groupBy('g')\n")
 	if !sc.Stream {
-		fmt.Fprintf(&sb, "    |window().period(%ds).every(%ds).align()\n", sc.PeriodS, sc.PeriodS)
+		fmt.Fprintf(&sb, "    |window().period(%ds).every(%ds).align()\n", sc.WinS, sc.PeriodS)
 	}
 	switch sc.Fn {
 	case "percentile":
@@ -478,7 +479,7 @@ func runC11(c *Ctx) Verdict {
 		} else {
 			// the batches the aggregation sees are the windows the window node emits (C03's reference model):
 			// one emission per arrival at or after the next edge, none for steps skipped during a silence
-			wm := &c03Scenario{PeriodS: sc.PeriodS, EveryS: sc.PeriodS, Align: true}
+			wm := &c03Scenario{PeriodS: sc.WinS, EveryS: sc.PeriodS, Align: true}
 			var ts []int
 			for _, p := range gr.Points {
 				ts = append(ts, p.T)
